@@ -1004,6 +1004,41 @@ pub fn gen_wake_sweep(rng: &mut Rng) -> Program {
     finish(prog, &g)
 }
 
+/// C05: the thread that releases the last owner runs the queue itself (no pool thread); the wake-up of the suspended
+/// operation it has to wait for is injected at every one of its scheduling points.
+pub fn gen_drop_wake_sweep(rng: &mut Rng) -> Program {
+    let mut g = Gen::new(rng, 1);
+    let o = 0;
+    let gate = 0;
+    g.n_gates = 1;
+    let h = g.handle();
+    let mut body = vec![Step::Mark];
+    if g.rng.permille(400) {
+        body.push(Step::Yield(1));
+    }
+    body.push(Step::AwaitGate(gate));
+    if g.rng.permille(400) {
+        body.push(Step::Yield(1));
+    }
+    let mut t0 = vec![];
+    t0.push({ let __k = OpKind::FutureDesync { o, body, h }; g.op(__k) });
+    if g.rng.permille(500) {
+        t0.push({ let __k = OpKind::Desync { o, body: vec![] }; g.op(__k) });
+    }
+    t0.push({ let __k = OpKind::Detach { h }; g.op(__k) });
+    t0.push({ let __k = OpKind::DropObj { o }; g.op(__k) });
+    let mut inj = vec![{ let __k = OpKind::SweepWait; g.op(__k) }];
+    if g.rng.permille(300) {
+        inj.push({ let __k = OpKind::Poke { g: gate }; g.op(__k) });
+    }
+    inj.push({ let __k = OpKind::OpenGate { g: gate }; g.op(__k) });
+    inj.push({ let __k = OpKind::SweepDone; g.op(__k) });
+    let mut prog = base_program(0, 1);
+    prog.faults = Faults { spurious_cv_permille: 0, spurious_park_permille: if g.rng.permille(300) { 100 } else { 0 }, self_wake_permille: 0, dup_wake_permille: if g.rng.permille(300) { 300 } else { 0 }, keep_waker_permille: 0 };
+    prog.phases = vec![Phase { ctl: vec![], threads: vec![t0, inj], env_gates: vec![], env_streams: vec![] }];
+    finish(prog, &g)
+}
+
 /// C08: the drop of a future_sync future (by its owner) is injected at every scheduling point of the
 /// context that runs the queue towards, into and past the future's slot.
 pub fn gen_fsync_drop_sweep(rng: &mut Rng) -> Program {
